@@ -68,6 +68,7 @@ class Engine:
         self.forked_on_path = 0
         self.str_constants = {}
         self.cuts = {}
+        self.rope_mode = False
 
     # ---- solver plumbing
     def check(self, *extra):
@@ -113,7 +114,7 @@ class Engine:
         return "%s!%d" % (prefix, self.fresh_ctr)
 
     # ---- branching
-    def decide(self, cond):
+    def decide(self, cond, aux=None):
         if isinstance(cond, bool):
             return cond
         cond = z3.simplify(cond)
@@ -123,11 +124,14 @@ class Engine:
             return False
         if self.pos >= self.max_decisions:
             raise Inconclusive("decision budget exhausted (unwinding bound %d)" % self.max_decisions)
-        h = cond.hash()
+        h = cond
         if self.pos < len(self.plan):
-            v, h0 = self.plan[self.pos]
-            if h0 is not None and h0 != h:
-                raise Inconclusive("non-deterministic re-execution (decision %d differs)" % self.pos)
+            v, h0, _ = self.plan[self.pos]
+            if h0 is not None and not z3.eq(h0, cond):
+                # simplify() may order commutative arguments differently between runs:
+                # accept only if the two conditions are equivalent under the path condition
+                if self.feasible(h0 != cond) != z3.unsat:
+                    raise Inconclusive("non-deterministic re-execution (decision %d differs): %s VS %s" % (self.pos, str(h0)[:300], str(cond)[:300]))
         else:
             ct = self.feasible(cond)
             if ct == z3.unknown:
@@ -140,11 +144,11 @@ class Engine:
                     raise Inconclusive("solver unknown at branch")
                 if cf == z3.sat:
                     v = True
-                    self.pending.append(self.trail[:self.pos] + [(False, h)])
+                    self.pending.append(self.trail[:self.pos] + [(False, h, aux)])
                     self.forked_on_path += 1
                 else:
                     v = True
-        self.trail = self.trail[:self.pos] + [(v, h)]
+        self.trail = self.trail[:self.pos] + [(v, h, aux)]
         self.pos += 1
         self.solver.add(cond if v else z3.Not(cond))
         return v
@@ -188,11 +192,14 @@ class Engine:
         if z3.is_bv_value(t):
             return t.as_signed_long()
         for _ in range(limit):
-            m = self.model_of()
-            if m is None:
-                raise Abort()
-            val = m.eval(sint.t, model_completion=True).as_signed_long()
-            if self.decide(sint.t == z3.BitVecVal(val, sint.w)):
+            if self.pos < len(self.plan) and self.plan[self.pos][2] is not None:
+                val = self.plan[self.pos][2]          # replaying: same candidate as recorded
+            else:
+                m = self.model_of()
+                if m is None:
+                    raise Abort()
+                val = m.eval(sint.t, model_completion=True).as_signed_long()
+            if self.decide(sint.t == z3.BitVecVal(val, sint.w), aux=val):
                 return val
         if cut_label:
             self.cut(cut_label)
@@ -437,6 +444,9 @@ class SInt:
 
     def __rmul__(self, o):
         if isinstance(o, bytes):
+            if getattr(cur(), "rope_mode", False) and not z3.is_bv_value(z3.simplify(self.t)):
+                from .rope import rope_repeat
+                return rope_repeat(o, self)
             return SBytes(o).__mul__(self)
         if isinstance(o, str):
             return SStr(o).__mul__(self)
@@ -930,6 +940,8 @@ class SBytes(_SSeq):
     def _coerce(self, o):
         if type(o) is SBytes:
             return o.items
+        if type(o).__name__ == "SRope":
+            return None
         if isinstance(o, (bytes, bytearray, memoryview)):
             return list(bytes(o))
         return None
